@@ -24,22 +24,35 @@ ROOT = "/srv/gopher"
 UID, GID = 1234, 5678
 
 
-class Boom(OSError):
-    pass
+def _mkerr(ekind: int, name: str):
+    """The injected failure: a realistic OSError of a symbolic kind (EPERM / EINVAL / ENOENT)."""
+    if ekind == 0:
+        e = PermissionError(1, "Operation not permitted: " + name)
+    elif ekind == 1:
+        e = OSError(22, "Invalid argument: " + name)
+    else:
+        e = FileNotFoundError(2, "No such file or directory: " + name)
+    e._vk_injected = True
+    return e
+
+
+def _is_injected(e) -> bool:
+    return getattr(e, "_vk_injected", False)
 
 
 class _Env:
     """Recording stand-in for the os / pwd / grp modules inside pygopherd.initialization."""
 
-    def __init__(self, fail_at: int):
+    def __init__(self, fail_at: int, ekind: int = 0):
         self.calls = []
         self.fail_at = fail_at
+        self.ekind = ekind
 
     def _rec(self, name, *args):
         idx = len(self.calls)
         self.calls.append((name,) + args)
         if idx == self.fail_at:
-            raise Boom(1, "injected failure in " + name)
+            raise _mkerr(self.ekind, name)
 
     # os
     def chroot(self, p):
@@ -133,7 +146,7 @@ def _expected(usechroot, setuid, setgid):
     return seq
 
 
-def body_init_security(usechroot: bool, setuid: bool, setgid: bool, fail: int) -> bool:
+def body_init_security(usechroot: bool, setuid: bool, setgid: bool, fail: int, ekind: int) -> bool:
     from pygopherd import initialization
 
     hx.silence_logging()
@@ -144,13 +157,15 @@ def body_init_security(usechroot: bool, setuid: bool, setgid: bool, fail: int) -
         cfg.set("pygopherd", "setuid", "gopher")
     if setgid:
         cfg.set("pygopherd", "setgid", "gopher")
-    env = _Env(fail)
+    env = _Env(fail, ekind)
     _install(env)
     raised = None
     try:
         try:
             initialization.init_security(cfg)
-        except Boom as e:
+        except OSError as e:
+            if not _is_injected(e):
+                raise
             raised = e
     finally:
         _uninstall()
@@ -184,18 +199,19 @@ def body_init_security(usechroot: bool, setuid: bool, setgid: bool, fail: int) -
 class _StartupEnv:
     """Records the order of the big start-up steps inside initialize()."""
 
-    def __init__(self, fail_at: int):
+    def __init__(self, fail_at: int, ekind: int = 0):
         self.events = []
         self.fail_at = fail_at
+        self.ekind = ekind
 
     def ev(self, name):
         idx = len(self.events)
         self.events.append(name)
         if idx == self.fail_at:
-            raise Boom(1, "injected failure in " + name)
+            raise _mkerr(self.ekind, name)
 
 
-def body_initialize(enable_tls: bool, usechroot: bool, setuid: bool, setgid: bool, detach: bool, pidfile: bool, fail: int) -> bool:
+def body_initialize(enable_tls: bool, usechroot: bool, setuid: bool, setgid: bool, detach: bool, pidfile: bool, fail: int, ekind: int) -> bool:
     """Real initialize(): bind + key load precede every privilege step; any failure leaves by exception."""
     import ssl as real_ssl
 
@@ -203,7 +219,7 @@ def body_initialize(enable_tls: bool, usechroot: bool, setuid: bool, setgid: boo
     from pygopherd import initialization, sighandlers
 
     hx.silence_logging()
-    env = _StartupEnv(fail)
+    env = _StartupEnv(fail, ekind)
     cfg = hx.DictConfig(True)
     cfg.set("pygopherd", "usechroot", usechroot)
     cfg.set("pygopherd", "root", ROOT)
@@ -280,7 +296,9 @@ def body_initialize(enable_tls: bool, usechroot: bool, setuid: bool, setgid: boo
     try:
         try:
             srv = initialization.initialize("whatever.conf")
-        except Boom as e:
+        except OSError as e:
+            if not _is_injected(e):
+                raise
             raised = e
     finally:
         _uninstall()
@@ -313,11 +331,11 @@ def obligations(tier, seed):
         Ob(
             id="C19.1-init_security",
             body="harness.C19:body_init_security",
-            sig="usechroot: bool, setuid: bool, setgid: bool, fail: int",
-            pre=["-1 <= fail <= 8"],
+            sig="usechroot: bool, setuid: bool, setgid: bool, fail: int, ekind: int",
+            pre=["-1 <= fail <= 8", "0 <= ekind <= 2"],
             desc="real init_security: lookups, chroot(root)+chdir('/'), setgroups(()), setregid, setreuid in this order under the documented guards; "
             "root rewritten to / iff chrooted; a failing call propagates and no later privileged call is made",
-            bounds="8 configurations x failing call index -1..8 (all symbolic)",
+            bounds="8 configurations x failing call index -1..8 x error kind {EPERM, EINVAL, ENOENT} (all symbolic)",
             timeout=60,
             functions=["pygopherd.initialization.init_security"],
         ),
@@ -325,11 +343,11 @@ def obligations(tier, seed):
         Ob(
             id="C19.2-initialize[tls=%d,detach=%d,pidfile=%d]" % (t, d, p),
             body="harness.C19:body_initialize",
-            sig="enable_tls: bool, usechroot: bool, setuid: bool, setgid: bool, detach: bool, pidfile: bool, fail: int",
-            pre=["-1 <= fail <= 12", "enable_tls == %s" % bool(t), "detach == %s" % bool(d), "pidfile == %s" % bool(p)],
+            sig="enable_tls: bool, usechroot: bool, setuid: bool, setgid: bool, detach: bool, pidfile: bool, fail: int, ekind: int",
+            pre=["-1 <= fail <= 12", "0 <= ekind <= 2", "enable_tls == %s" % bool(t), "detach == %s" % bool(d), "pidfile == %s" % bool(p)],
             desc="real initialize(): bind and TLS key load precede every privilege-dropping call, user/group lookups precede chroot, "
             "and a failure of any recorded step (bind, key load, fork, pidfile, any privileged call) leaves initialize by exception with no later step",
-            bounds="partition tls=%d detach=%d pidfile=%d; usechroot/setuid/setgid symbolic x failing step index -1..12 symbolic" % (t, d, p),
+            bounds="partition tls=%d detach=%d pidfile=%d; usechroot/setuid/setgid symbolic x failing step index -1..12 x error kind {EPERM, EINVAL, ENOENT} symbolic" % (t, d, p),
             timeout=120,
             functions=["pygopherd.initialization.initialize", "init_ssl_context", "get_server", "init_conditional_detach", "init_process_group", "init_security"],
         )
